@@ -6,6 +6,7 @@ import tempfile
 from lib.core import *
 from lib import gen_net as G
 from gen import c06_nets as N
+from gen import c06_acord as A
 from gen import c05_linearization as tr_lin
 
 ID = "C06"
@@ -236,7 +237,10 @@ def tolerances(variant, heights):
 
 def check(net, rc, xml, txt, log, variant, heights):
     tol = tolerances(variant, heights)
-    bad = N.check_result(net, rc, xml, txt, log, tol_xyz=tol["tol_xyz"], tol_ang=max(tol["tol_ang"], 1e-5 if heights else 0),
+    # with from_dh/to_dh the program keeps a zenith-angle reduction until it is stale by more than
+    # angular_tol = 0.1 cc = 1e-5 gon (test_linearization_visitor.cpp); with target heights of several metres the
+    # staleness reaches that limit, and the iteration's own stopping tolerance comes on top: 2e-5 gon
+    bad = N.check_result(net, rc, xml, txt, log, tol_xyz=tol["tol_xyz"], tol_ang=max(tol["tol_ang"], 2e-5 if heights else 0),
                          tol_lin=max(tol["tol_lin"], 1e-4 if heights else 0))
     if bad and variant != "supplied":
         # weakly determined coordinates (reported std.dev > 20 mm for sigma_obs 5 mm / 10 cc): the program stops at
@@ -295,6 +299,11 @@ def signature(gkf, bad, txt, variant):
     if rows and all(all(r[2] == "dir." and 1.9e6 < abs(r[3]) < 2.1e6 for r in g) and len(g) >= 3
                     for g in groups.values()):
         return "F15"
+    if variant.startswith("omitted") and rows and "<azimuth" in gkf and \
+            any(r[2] == "azim." and abs(abs(r[3]) - 1.0e6) < 1.0 for r in rows):
+        # an azimuth observed FROM a point without approximate coordinates: the point is placed exactly 100 gon
+        # off (finding F20 of round 3: not by AcordAzimuth — by the intersection / polar machinery that runs first)
+        return "C06-azimuth-from-unknown"
     m = re.search(r"Number of linearization iterations:\s*(\d+)", txt)
     if m and int(m.group(1)) >= 5 and "from_dh" in gkf:
         return "C06-stale-x"
@@ -342,6 +351,39 @@ def subnet(net, keep):
     return n
 
 
+# Construction steps (the "step" record the generator attaches to every point, see tools/gen/c06_nets.py) that
+# Acord2 demonstrably does NOT perform on the unchanged tree.  A refusal / undetermined point whose first
+# unresolved point was built by one of these is the known finding C06-F19; every entry is backed by one
+# committed reproducer in corpus/C06/ that is run on every check.  Any other refusal is a VIOLATION.
+UNIMPLEMENTED_STEPS = {
+    # step kind (prefix of the "step" string) : reproducer in corpus/C06/
+}
+
+
+def failing_step(ctx, wd, gkf_text, truth):
+    """which construction step did Acord2 not perform: run the real GKFparser + Acord2::execute (harness op
+    `acordnet`) and take the first point, in construction order, that is left without approximate xy / z"""
+    exe = build_harness(ctx)
+    f = wd / "acordnet.gkf"
+    f.write_text(gkf_text)
+    out, _ = run_cases(exe, [[f"acordnet {f}"]])
+    unres = {}
+    for l in out[0] or []:
+        t = l.split()
+        if t and t[0] == "apt":
+            w = ("xy" if t[2] == "1" and t[3] == "0" else "") + ("z" if t[4] == "1" and t[5] == "0" else "")
+            if w:
+                unres[" ".join(t[1:-4])] = w
+    for pid, p in truth["points"].items():
+        if pid in unres:
+            return pid, p.get("step", p.get("how", "?")), unres[pid]
+    return None, "none-unresolved", ""
+
+
+def step_kind_known(step):
+    return any(step.startswith(k) for k in UNIMPLEMENTED_STEPS)
+
+
 def e2e(ctx, corr, gd, ncases, wd):
     rng = ctx.rng
     seen = {}
@@ -354,9 +396,16 @@ def e2e(ctx, corr, gd, ncases, wd):
         if B is not None:
             N.add_redundant(B, rng.randint(1, 3))
             variants.append(("omitted+more", N.variant_omitted(B.net())))
+        # the same network described in one of the 8 axes orientations x 2 angle senses (60 % of the networks)
+        gk = {}
+        if rng.random() < 0.6:
+            gk = {"axes": rng.choice(N.AXES), "angles": rng.choice(N.ANGLES)}
+            corr.count("e2e_axes_" + gk["axes"] + "_" + gk["angles"][0])
         for vn, v in variants:
             truth = B.net() if vn == "omitted+more" else net
-            text = G.to_gkf(v)
+            if gk:
+                v, truth = N.mirror(v, gk["axes"], gk["angles"]), N.mirror(truth, gk["axes"], gk["angles"])
+            text = G.to_gkf(v, **gk)
             algs = N.ALGS if (i % 3 == 0 or ctx.thorough) else [rng.choice(N.ALGS)]
             for alg in algs:
                 rc, xml, txt, log = N.run_gama(gd, text, alg, wd, "t")
@@ -369,44 +418,93 @@ def e2e(ctx, corr, gd, ncases, wd):
                 if not bad:
                     continue
                 sig = signature(text, bad, txt, vn)
+                step = ""
+                if sig == "C06-acord-incomplete":
+                    pid, step, what = failing_step(ctx, wd, text, truth)
+                    step = f"{step} [{what}]"
+                    sig = sig + "|" + step
                 corr.count("e2e_fail_" + sig)
                 if sig in seen:
                     continue
                 # shrink: drop observations while the same mechanism still fails
-                def still(keep, v=v, truth=truth, alg=alg, vn=vn, sig=sig, heights=heights):
+                def still(keep, v=v, truth=truth, alg=alg, vn=vn, sig=sig, heights=heights, gk=gk):
                     sv = subnet(v, keep)
                     if not any(p["status"] != "fix" for p in sv["points"].values()):
                         return False
                     st = subnet(truth, keep)
-                    t2 = G.to_gkf(sv)
+                    t2 = G.to_gkf(sv, **gk)
                     rc2, xml2, txt2, log2 = N.run_gama(gd, t2, alg, wd, "s")
                     b2 = check(st, rc2, xml2, txt2, log2, vn, heights)
                     if not (bool(b2) and signature(t2, b2, txt2, vn) == sig):
                         return False
                     if vn != "supplied":      # keep the network determined: with the true coordinates supplied it must pass
-                        rc3, xml3, txt3, log3 = N.run_gama(gd, G.to_gkf(N.variant_supplied(st)), alg, wd, "s3")
+                        rc3, xml3, txt3, log3 = N.run_gama(gd, G.to_gkf(N.variant_supplied(st), **gk), alg, wd, "s3")
                         b3 = check(st, rc3, xml3, txt3, log3, "supplied", heights)
                         if b3 and signature("", b3, txt3, "supplied") != "F15":
                             return False
                     return True
                 # (an "incomplete strategy" failure is only meaningful on the constructive network: not shrunk)
-                keep = flatten(v) if sig == "C06-acord-incomplete" else ddmin(flatten(v), still, max_tests=ctx.size(60, 300))
+                keep = flatten(v) if sig.startswith("C06-acord-incomplete") else ddmin(flatten(v), still, max_tests=ctx.size(60, 300))
                 sv, stt = subnet(v, keep), subnet(truth, keep)
-                t2 = G.to_gkf(sv)
+                t2 = G.to_gkf(sv, **gk)
                 rc2, xml2, txt2, log2 = N.run_gama(gd, t2, alg, wd, "s")
                 b2 = check(stt, rc2, xml2, txt2, log2, vn, heights) or bad
                 seen[sig] = True
                 corr.fail(f"end-to-end ({fam}, {vn}, {alg}): " + "; ".join(b2[:4]),
                           {"stream": "e2e", "gkf": t2, "alg": alg, "variant": vn, "heights": heights, "family": fam,
                            "true": {p: {c: q[c] for c in ("x", "y", "z") if c in q} for p, q in stt["points"].items()},
-                           "truth_net": stt, "signature": sig, "unshrunk_obs": N.count_obs(v), "shrunk_obs": N.count_obs(sv),
-                           "unshrunk_gkf": text, "unshrunk_truth": truth, "how": {p: q.get("how") for p, q in truth["points"].items()}},
+                           "truth_net": stt, "signature": sig.split("|")[0], "step": step, "axes": gk,
+                           "unshrunk_obs": N.count_obs(v), "shrunk_obs": N.count_obs(sv),
+                           "unshrunk_gkf": text, "unshrunk_truth": truth,
+                           "how": {p: q.get("step", q.get("how")) for p, q in truth["points"].items()}},
                           site={"F15": "Orientation::orientation", "C06-stale-x": "LocalNetwork::refine_approx_coordinates",
                                 "C06-acord-copyback": "AcordHdiff::execute / AcordVector::execute",
                                 "C06-z-underiterated": "TestLinearizationVisitor::visit(Z_Angle*) / refine_obsdh_reductions",
-                                "C06-zderived-dh": "AcordZderived::execute"
-                                }.get(sig, "gama-local"),
+                                "C06-zderived-dh": "AcordZderived::execute",
+                                "C06-acord-incomplete": "Acord2::execute (" + step + ")",
+                                "C06-azimuth-from-unknown": "AcordIntersection::execute / ApproximateCoordinates (azimuth observed from the unknown point)",
+                                }.get(sig.split("|")[0], "gama-local"),
                           detail=txt2[:1500])
+
+
+def acord_stream(ctx, corr, exe, drv, n):
+    rng = ctx.rng
+    cases, meta = [], []
+    corpus = ctx.verif / "corpus" / "C06"
+    for f in sorted(corpus.glob("acord-*.txt")) if corpus.exists() else []:
+        for l in f.read_text().splitlines():
+            if l.strip() and not l.startswith("#"):
+                cases.append([l.strip()]); meta.append(dict(alg="corpus", consistent=False, branches=set(), corpus=f.name))
+    for _ in range(n):
+        line, m = A.gen(rng)
+        cases.append([line]); meta.append(m)
+    impl, crashes = run_cases(exe, cases)
+    model, _ = run_cases(drv, cases)
+    for i, c in enumerate(cases):
+        m = meta[i]
+        computed = sum(1 for l in impl[i] if l.startswith("pt ") and (l.split()[2] == "1" or l.split()[5] == "1"))
+        corr.case(key=c[0] if computed else None,
+                  sample={"op": c[0][:160], "impl": impl[i][:2]} if i % 900 == 0 else None)
+        corr.count("acord_" + m["alg"])
+        for b in m["branches"]:
+            corr.count(f"acord_{m['alg']}_{b}")
+        if i in crashes:
+            corr.fail("acord harness crashed (sanitizer)", {"stream": "acord", "ops": c}, "Acord2 strategy", crashes[i][1])
+            continue
+        ok = len(impl[i]) == len(model[i]) and all(lines_equal(a, b, rtol=1e-9, atol=1e-7) for a, b in zip(impl[i], model[i]))
+        if not ok:
+            corr.disagree("acord", c, impl[i], model[i])
+            continue
+        why = A.check(m, impl[i])
+        if why:
+            corr.fail("a strategy step publishes a coordinate that is not the true one: " + why,
+                      {"stream": "acord", "ops": c, "truth": m["truth"]}, "Acord" + m["alg"].capitalize() + "::execute")
+    corr.count("acord_cases", len(cases))
+    need = ["acord_azimuth_known-first", "acord_azimuth_known-second", "acord_hdiff_from-known", "acord_hdiff_to-known",
+            "acord_vector_from-known", "acord_vector_to-known", "acord_zderived_station-known", "acord_zderived_target-known"]
+    thin = [k for k in need if corr.stats.get(k, 0) < 20]
+    if thin and n >= 1000:
+        corr.inconclusive.append("acord stream: too few cases for branch(es) " + ", ".join(thin))
 
 
 def correspond(ctx, corr):
@@ -464,6 +562,8 @@ def correspond(ctx, corr):
             if seam and d > 1.0:
                 corr.count("orient_seam_off_by_pi")
     corr.count("prim_cases", len(cases))
+    # ---- (a') one step of one Acord2 strategy on a small in-memory network
+    acord_stream(ctx, corr, exe, drv, ctx.size(1600, 40000))
     # ---- (b) one adjustment step through LocalNetwork
     wd = Path(tempfile.mkdtemp(prefix="c06-"))
     try:
@@ -504,7 +604,7 @@ def correspond(ctx, corr):
             if bad:
                 corr.fail(f"corpus {f.name}: " + "; ".join(bad[:4]),
                           {"stream": "e2e", "gkf": f.read_text(), "alg": m.get("alg", "envelope"), "variant": m.get("variant"),
-                           "heights": m.get("heights", False), "truth_net": m["truth_net"],
+                           "heights": m.get("heights", False), "truth_net": m["truth_net"], "step": m.get("step", ""),
                            "signature": signature(f.read_text(), bad, txt, m.get("variant", "supplied"))},
                           site=m.get("site", "gama-local"), detail=txt[:1500])
         e2e(ctx, corr, gd, ctx.size(45, 400), wd)
@@ -541,8 +641,14 @@ def classify(ctx, failure):
     r = failure.replay if isinstance(failure.replay, dict) else {}
     sig = r.get("signature", "")
     # F15 (01e764d) and F18 (45be66f, 2bd0b4a) are repaired: a recurrence is reported, not classified
+    if sig == "C06-acord-incomplete":
+        # a refusal is the known finding F19 ONLY when the construction step Acord2 did not perform is one of the
+        # listed, reproducer-backed unimplemented step kinds; anything else is a violation (a strategy regressed)
+        return "C06-F19" if step_kind_known(r.get("step", "")) else None
+    if r.get("stream") == "acord":
+        return r.get("finding")
     return {"C06-stale-x": "C06-refine-stale-unknowns", "C06-acord-copyback": "C06-acord-copyback",
-            "C06-acord-incomplete": "C06-F19"}.get(sig)
+            "C06-azimuth-from-unknown": "C06-F20"}.get(sig)
 
 
 def explained_by_known(ctx, broken_item, matched_ids):
@@ -564,7 +670,7 @@ def replay(ctx, payload):
             return 1 if bad else 0
         finally:
             shutil.rmtree(wd, ignore_errors=True)
-    if inp.get("stream") == "prim":
+    if inp.get("stream") in ("prim", "acord"):
         exe = build_harness(ctx)
         impl, _ = run_cases(exe, [inp["ops"]])
         model, _ = run_cases(ctx.driver("drv_cogo"), [inp["ops"]])
